@@ -12,7 +12,8 @@ import (
 
 // C10 — a UDP datagram is processed in isolation from every other datagram (DESIGN.md §4 C10).
 
-var c10Shapes = []string{"small", "large", "body", "overdeclared", "underdeclared", "cut-startline", "cut-header", "cut-blankline", "cut-body", "blanks", "two-in-one", "overdeclared-big"}
+var c10Shapes = []string{"small", "large", "body", "overdeclared", "underdeclared", "cut-startline", "cut-header", "cut-blankline", "cut-body", "blanks", "two-in-one", "overdeclared-big",
+	"empty", "crlf-body", "crlf-overdeclared", "crlf-cut-blankline"}
 
 // c10Datagram: the bytes of shape sh at position i (the Call-ID carries i and the shape).
 func c10Datagram(sh string, i int) []byte {
@@ -84,6 +85,19 @@ func c10Datagram(sh string, i int) []byte {
 		return b[:len(b)-200]
 	case "blanks":
 		return []byte("\r\n\r\n  \r\n")
+	case "empty":
+		return []byte{}
+	case "crlf-body":
+		// leading CRLFs in front of a complete message
+		return append([]byte("\r\n\r\n"), mk(fill(300, "CRLFBODY"), "").Render()...)
+	case "crlf-overdeclared":
+		// leading CRLFs in front of a message that declares 3 body bytes more than it carries
+		m := mk(fill(40, "CRLFOVER"), "")
+		setCL(m, 43)
+		return append([]byte("\r\n\r\n"), m.Render()...)
+	case "crlf-cut-blankline":
+		b := mk(nil, "").Render()
+		return append([]byte("\r\n\r\n"), b[:len(b)-2]...)
 	case "two-in-one":
 		return append(mk(fill(10, "FIRST"), "").Render(), mk(fill(10, "SECOND"), "-second").Render()...)
 	}
@@ -91,7 +105,8 @@ func c10Datagram(sh string, i int) []byte {
 }
 
 // shapes the statement singles out: must be discarded rather than completed from elsewhere
-var c10MustDiscard = map[string]bool{"overdeclared": true, "overdeclared-big": true, "cut-startline": true, "cut-header": true, "cut-blankline": true, "cut-body": true}
+var c10MustDiscard = map[string]bool{"overdeclared": true, "overdeclared-big": true, "cut-startline": true, "cut-header": true, "cut-blankline": true, "cut-body": true,
+	"crlf-overdeclared": true, "crlf-cut-blankline": true}
 
 var c10Branch = regexp.MustCompile(`branch=z9hG4bK[0-9a-f]{12}`)
 
@@ -394,7 +409,7 @@ func c10SizeSweep(c *Ctx, idx *int64) {
 
 func init() {
 	addCheck(&Check{ID: "C10", Level: "model_checking",
-		Rule: "all sequences of length 1-3 (thorough 1-4) over a 12-shape datagram alphabet (small, 60 KiB with distinctive filler, with body, declared length larger / much larger / smaller than the payload, cut inside start line / header / blank line / body, blanks only, two messages in one datagram), delivered with quiescence in between (the LIFO pool recycles the dirty buffer) and back-to-back, from one and from two sources, plus {any datagram handled to quiescence, then a burst of three}, plus a size sweep (well-formed datagrams of exactly n bytes for n around every power of two and the MTU up to 65507 - thorough: also every n in 400..4200 - each in nine burst patterns with small / over-declared / equal-sized neighbours); differential oracle: what is relayed for a datagram inside the sequence equals byte for byte (fresh branch masked) what a fresh world relays for it alone, and incomplete / over-declared datagrams are never relayed; schedule exploration of the receive / parse / loop goroutines under the race detector, for one UDP listener and for two listens entries receiving at the same time: see the race tier; non-trivial = sequence of at least two datagrams",
+		Rule: "all sequences of length 1-3 (thorough 1-4) over a 16-shape datagram alphabet (empty datagram, leading CRLFs in front of a complete / an over-declared / a cut message, small, 60 KiB with distinctive filler, with body, declared length larger / much larger / smaller than the payload, cut inside start line / header / blank line / body, blanks only, two messages in one datagram), delivered with quiescence in between (the LIFO pool recycles the dirty buffer) and back-to-back, from one and from two sources, plus {any datagram handled to quiescence, then a burst of three}, plus a size sweep (well-formed datagrams of exactly n bytes for n around every power of two and the MTU up to 65507 - thorough: also every n in 400..4200 - each in nine burst patterns with small / over-declared / equal-sized neighbours); differential oracle: what is relayed for a datagram inside the sequence equals byte for byte (fresh branch masked) what a fresh world relays for it alone, and incomplete / over-declared datagrams are never relayed; schedule exploration of the receive / parse / loop goroutines under the race detector, for one UDP listener and for two listens entries receiving at the same time: see the race tier; non-trivial = sequence of at least two datagrams",
 		Run:  c10Run,
 		Replay: func(c *Ctx, raw json.RawMessage) string {
 			var cs c10Case
